@@ -1,9 +1,11 @@
 """Import the code under test with the simulator's seams in place.
 
-* ``threading.RLock`` is a dispatching factory *while chameleon is being
-  imported*, so the process-wide lock of ``chameleon.loader`` becomes a lock
-  whose blocking the scheduler owns and of which every simulated process has
-  its own instance.  No name inside chameleon is touched.
+* ``threading.RLock`` / ``threading.Lock`` are dispatching factories: a lock
+  created *by chameleon's own code* - at import time (the process-wide lock
+  of ``chameleon.loader``) or later (a per-instance lock that a change to the
+  library may introduce) - is a lock whose blocking the scheduler owns and of
+  which every simulated process has its own instance; everybody else gets
+  the real thing.  No name inside chameleon is touched.
 * the file-system wrappers of ``sim.fs`` are installed first, so both
   ``import os`` and ``from os.path import x`` users see them.
 """
@@ -16,7 +18,26 @@ from . import fs
 from .core import REPO_SRC
 
 _real_RLock = threading.RLock
+_real_Lock = threading.Lock
 _imported = False
+_PKG = REPO_SRC.rstrip("/") + "/chameleon/"
+
+
+def _created_by_chameleon() -> bool:
+    f = sys._getframe(2)
+    return f.f_code.co_filename.startswith(_PKG)
+
+
+def _rlock_factory(*a, **k):
+    if _created_by_chameleon():
+        return DispatchLock()
+    return _real_RLock(*a, **k)
+
+
+def _lock_factory(*a, **k):
+    if _created_by_chameleon():
+        return DispatchLock()
+    return _real_Lock(*a, **k)
 
 
 class DispatchLock:
@@ -44,6 +65,15 @@ class DispatchLock:
     def release(self) -> None:
         self._target().release()
 
+    def locked(self) -> bool:
+        t = self._target()
+        if t is self._real:
+            if t.acquire(False):
+                t.release()
+                return False
+            return True
+        return t.owner is not None
+
     def __enter__(self):
         self.acquire()
         return self
@@ -61,13 +91,15 @@ def import_chameleon():
     if not _imported:
         assert "chameleon" not in sys.modules, \
             "chameleon was imported before the seams were installed"
-        threading.RLock = DispatchLock          # type: ignore[assignment]
-        try:
-            import chameleon                    # noqa: F401
-            import chameleon.zpt.loader         # noqa: F401
-            import chameleon.zpt.template       # noqa: F401
-        finally:
-            threading.RLock = _real_RLock
+        # (for good: a lock that chameleon creates later - per template
+        # instance, say - must be the scheduler's too, or a thread parked
+        # by the scheduler while holding it would block the others for
+        # real)
+        threading.RLock = _rlock_factory        # type: ignore[assignment]
+        threading.Lock = _lock_factory          # type: ignore[assignment]
+        import chameleon                    # noqa: F401
+        import chameleon.zpt.loader         # noqa: F401
+        import chameleon.zpt.template       # noqa: F401
         _imported = True
     import chameleon
     assert chameleon.__file__.startswith(REPO_SRC), chameleon.__file__
